@@ -665,6 +665,9 @@ def threshold_cases(quick=True):
     cols = ', '.join('c%d' % i for i in range(m))
     out.append(('many-tokens-select', 'select ' + cols + ' from t where ( a = 1 ) order by b',
                 {'where': 'where ( a = 1 ) ', 'items': m}))
+    mq = 1300 if quick else 3000
+    out.append(('many-qualified-aliased', 'select ' + ', '.join('q.c%d AS a%d' % (i, i) for i in range(mq)) + ' from q',
+                {'items': mq, 'probe': [0, mq // 2, mq - 1]}))
     rows = ', '.join('(%d, %d)' % (i, i) for i in range(1400 if quick else 4000))
     out.append(('many-tokens-cte-insert', 'with src as (select 1 from u) insert into t (id, v) values ' + rows, {'type': 'INSERT'}))
     out.append(('many-tokens-in-list', 'update t set a = 1 where a in (' + ', '.join(map(str, range(3600 if quick else 9000))) +
